@@ -85,7 +85,7 @@ Print Assumptions C05_last_prev_enumerates.
 (** ---- the hypothesis of the refinement theorems above, "a committed tree has no emptied leaf", is no longer only monitored:
     it is a theorem about Tree.v, the model of what Tx.Commit does to a bucket's tree (node.rebalance + node.spill), which is
     compared with the real commit on every generated case (tree before, visit order, tree after) ---- *)
-From Bbolt Require Node Tree TreeProofs TreeCursorProofs TreeOrderProofs.
+From Bbolt Require Node NodeProofs Tree TreeProofs TreeNestedProofs TreeCursorProofs TreeOrderProofs.
 Module CommittedTrees.
 Import Node Tree TreeProofs.
 
@@ -120,8 +120,16 @@ Print Assumptions C05_commit_keeps_the_enumeration.
     by re-keying the rewritten children), and w3_needs_stale_first_children_materialised shows the statement needs the extra hypothesis that a
     first child holding keys below its (stale) separator is materialised - true of bbolt, where only node.put creates such keys.  Key order of
     every committed tree therefore stays a MONITORED hypothesis (the decoder's order verdict on every committed image, C07) - labelled partial. *)
-Import TreeOrderProofs.
-Theorem C05_ordered_tree_is_cursor_wf_partial : forall t, aligned t -> ob None None t -> Cursor.wf (to_ctree t) = true.
-Proof. exact ob_cursor_wf. Qed.
+Import NodeProofs TreeNestedProofs TreeOrderProofs.
+Theorem C05_ordered_tree_is_cursor_wf_partial : forall t, aligned t -> (ob None None t <-> Cursor.wf (to_ctree t) = true).
+Proof. exact ob_iff_cursor_wf. Qed.
 Print Assumptions C05_ordered_tree_is_cursor_wf_partial.
+
+(** what is left is ONE property of the committed tree: no stale separator ([ff]: every separator is a lower bound of its child's keys and
+    an upper bound of the previous child's).  Given it, the facts already proved about the commit (content kept and sorted: P1, no empty vertex: P4)
+    make the committed tree meet Cursor.wf - so the missing lemma is exactly "spill re-keys every rewritten child and unmaterialised children are fresh" *)
+Theorem C05_fresh_separators_suffice_partial : forall t, aligned t -> isorted (flat t) -> ff t -> ins_of t <> [] -> good [] t ->
+  Cursor.wf (to_ctree t) = true.
+Proof. exact ff_cursor_wf. Qed.
+Print Assumptions C05_fresh_separators_suffice_partial.
 End CommittedTrees.
